@@ -109,6 +109,18 @@ def gen_case(rng, thorough=False):
          'alpha': rng.choice(COEFS), 'beta': rng.choice(COEFS),
          'coef_int': rng.random() < 0.3, 'pyint': scale >= 0 and rng.random() < 0.4,
          'fam': f'rel:{vf_rel} pair:{vf_pair} red:{s_red} rln:{s_rln}'}
+    if rng.random() < 0.25 and n >= 2:
+        # call HISTORY: the function is first called on dictionaries with the same keys and other values (the values of this
+        # case rotated), then the SAME dict objects are updated in place to this case's values and the function is called again;
+        # the ranking judged is the second call's – it must be greedy-optimal for the dictionaries as they are at that call
+        def rot(l, k=1):
+            return l[k:] + l[:k] if l else l
+        prev = {k: v for k, v in c.items()}
+        prev['rel'] = rot(c['rel'])
+        prev['red'] = [[a, b, m] for (a, b, _), m in zip(c['red'], rot([t[2] for t in c['red']]))]
+        prev['rln'] = [[a, b, m] for (a, b, _), m in zip(c['rln'], rot([t[2] for t in c['rln']], 2))]
+        c['prev'] = prev
+        c['fam'] += ' +history'
     return c
 
 
@@ -269,7 +281,8 @@ def float_exact(c, feats):
 
 def short(c):
     n = len(c['names'])
-    s = (f'n={n} strategy={c["strategy"]} alpha={c["alpha"]} beta={c["beta"]} unit=lcm(1..30)*2^{c["scale"]} '
+    s = (('[second call on the same dict objects, updated in place after an earlier call with rotated values] ' if c.get('prev') else '') +
+         f'n={n} strategy={c["strategy"]} alpha={c["alpha"]} beta={c["beta"]} unit=lcm(1..30)*2^{c["scale"]} '
          f'relevance={dict(zip(c["names"], c["rel"]))}')
     names = c['names'] + c.get('foreign', [])
     if len(c['red']) <= 12:
@@ -395,6 +408,8 @@ def restrict(c, keep):
     d['red'] = [[new[a], new[b], m] for a, b, m in c['red'] if a in new and b in new]
     d['rln'] = [[new[a], new[b], m] for a, b, m in c['rln'] if a in new and b in new]
     d.pop('id', None)
+    if c.get('prev'):
+        d['prev'] = restrict(c['prev'], keep)
     return d
 
 
